@@ -165,7 +165,7 @@ impl Prop for Repair {
         let modes: &[bool] = if case.cfg.enc() { &[true, false] } else { &[true] };
         let only_mode = case.param("only_auth", -1);
         let ocfg = out_cfg(&case.cfg.variant);
-        let plain_rcfg = ReadCfg { keys: vec![], sched: Sched::Full, budget: u64::MAX / 2, error_at_read: None };
+        let plain_rcfg = ReadCfg { keys: vec![], sched: Sched::Full, budget: u64::MAX / 2, error_at_read: None, spill_path: None };
         // ground truth pieces (no compression only)
         let stream_len = len - hlen;
         for &auth in modes {
